@@ -103,6 +103,8 @@ type specDef struct {
 	retElem     types.Type
 	params      []Val
 	translating bool
+	unfoldBody  string          // ground-unfolding mode: macro holding one unfolding of a recursive spec function
+	unfolded    map[string]bool // applications already unfolded
 }
 
 func NewGen(p *Program, fn *ssa.Function, fc *FuncContract) *Gen {
